@@ -387,6 +387,7 @@ fn check_snapshot(c: &mut Case, w: &World, git: &Git, step: &'static str, seen: 
         }
     };
     let mut merged_model: Option<idx::Index> = None;
+    let mut shared_has_known_class = false;
     if let Some(link) = &model.link {
         let shared = w.git_dir().join(format!("sharedindex.{}", idx::hex20(&link.base_id)));
         let merged = std::fs::read(&shared)
@@ -397,7 +398,10 @@ fn check_snapshot(c: &mut Case, w: &World, git: &Git, step: &'static str, seen: 
                 }
                 idx::parse(&b)
             })
-            .and_then(|base| idx::merge_split(&base, &model));
+            .and_then(|base| {
+                shared_has_known_class = long_name_padding_class(&base);
+                idx::merge_split(&base, &model)
+            });
         match merged {
             Ok(entries) => {
                 let mut m = model.clone();
@@ -486,6 +490,18 @@ fn check_snapshot(c: &mut Case, w: &World, git: &Git, step: &'static str, seen: 
     c.label_if(model.reuc.is_some(), "REUC");
     c.label_if(model.untr.is_some(), "UNTR");
     c.label_if(model.untr.as_ref().map_or(false, |u| u.dirs.len() >= 2), "UNTR-with-dirs");
+    c.label_if(
+        model.untr.as_ref().map_or(false, |u| u.dirs.iter().skip(1).any(|d| d.exclude_id.is_some())),
+        "UNTR-nested-exclude-id",
+    );
+    c.label_if(
+        model.untr.as_ref().map_or(false, |u| u.dirs.last().map_or(false, |d| d.exclude_id.is_some())),
+        "UNTR-last-dir-has-exclude-id",
+    );
+    c.label_if(
+        model.untr.as_ref().map_or(false, |u| u.dirs.iter().any(|d| d.check_only)),
+        "UNTR-check-only",
+    );
     c.label_if(model.link.is_some(), "link");
     c.label_if(
         model.link.as_ref().map_or(false, |l| {
@@ -560,7 +576,8 @@ fn check_snapshot(c: &mut Case, w: &World, git: &Git, step: &'static str, seen: 
         match gix_index::File::at(&index_path, gix_hash::Kind::Sha1, false, opts) {
             Err(e) => {
                 let msg = format!("{what}: git's index is rejected: {e}");
-                if known_class {
+                // File::at() also decodes the shared index of a split index
+                if known_class || shared_has_known_class {
                     c.fail_sig("v2v3-long-name-padding-not-skipped", msg);
                 } else {
                     c.fail(msg);
@@ -601,7 +618,7 @@ fn dump(path: &str) {
     }
 }
 
-fn main() {
+pub fn main() {
     let args: Vec<String> = std::env::args().collect();
     if args.len() == 3 && args[1] == "--dump" {
         dump(&args[2]);
